@@ -155,10 +155,12 @@ def refsem_compare(progs, exe, depth, budget, name="c01ref"):
     return out
 
 
-def shrink_refsem(ast, exe, depth, budget, cls, rounds=12, per_round=64):
+def shrink_refsem(ast, exe, depth, budget, cls, rounds=12, per_round=64, deadline=None):
     """AST delta debugging keeping the disagreement class; candidates are tested in batches"""
     import itertools
     for _ in range(rounds):
+        if deadline is not None and time.time() > deadline:
+            break
         cands = list(itertools.islice(gen_ink._candidates(ast), per_round))
         if not cands:
             break
@@ -338,19 +340,25 @@ def part_a(ctx, exe, n, stats):
     stats["engine_status"] = by
     stats["engine_paths"] = sum(sum(1 for l in r.get("impl", {}).get("lines", []) if l.startswith("PATH")) for r in res)
     bad = [r for r in res if r["status"] in ("mismatch", "model-error", "impl-crash")]
-    out = []
-    for r in bad[:3]:
-        ast, c = asts[r["id"]]
-        sw = None
 
-        def still(a, c=c):
-            c2 = dict(c, ink=gen_ink.print_program(a), id="shr")
-            rr = engine.compare([c2], exe=exe, shard=1)
-            return rr[0]["status"] == "mismatch"
-        small = gen_ink.shrink(ast, still, max_tests=40) if r["status"] == "mismatch" else ast
-        out.append(dict(kind="engine", status=r["status"], ink=gen_ink.print_program(small), case=dict(c, ink=None),
-                        first_diff=r.get("first_diff"), error=r.get("error", "")[:500]))
-    return res, out
+    def report(deadline):
+        """the (shrunk) mismatches — computed only when the verdict needs them (one model evaluation per shrink
+        test, sequential: not worth the time when a concrete failing input of the property is reported anyway)"""
+        out = []
+        for r in bad[:3]:
+            ast, c = asts[r["id"]]
+
+            def still(a, c=c):
+                if time.time() > deadline:
+                    return False
+                c2 = dict(c, ink=gen_ink.print_program(a), id="shr")
+                rr = engine.compare([c2], exe=exe, shard=1)
+                return rr[0]["status"] == "mismatch"
+            small = gen_ink.shrink(ast, still, max_tests=40) if r["status"] == "mismatch" and time.time() < deadline else ast
+            out.append(dict(kind="engine", status=r["status"], ink=gen_ink.print_program(small), case=dict(c, ink=None),
+                            first_diff=r.get("first_diff"), error=r.get("error", "")[:500]))
+        return out
+    return res, bad, report
 
 
 # ------------------------------------------------------------------ part (c)
@@ -435,7 +443,7 @@ def run(ctx):
     na = int(os.environ.get("C01_NA", 150 if quick else 1200))     # (env overrides: experiments only)
     tm = {"proofs": round(time.time() - t0, 1)}
     t1 = time.time()
-    res_a, bad_a = part_a(ctx, exe_drive, na, stats)
+    res_a, bad_a, report_a = part_a(ctx, exe_drive, na, stats)
     tm["a_engine"] = round(time.time() - t1, 1)
     t1 = time.time()
 
@@ -475,12 +483,13 @@ def run(ctx):
     mism = [(i, ast) for i, ast in progs_b if res_b[i][0] == "mismatch"]
     ref_fail = []
     seen_cls = set()
+    shrink_until = time.time() + (120 if quick else 900)      # (a change that breaks many programs: bounded reporting time)
     for i, ast in mism:
         cls = diff_class(res_b[i][1])
         if cls in seen_cls:
             continue
         seen_cls.add(cls)
-        small = shrink_refsem(ast, exe_play, depth_b, budget_b, cls) if len(seen_cls) <= 3 else ast
+        small = shrink_refsem(ast, exe_play, depth_b, budget_b, cls, deadline=shrink_until) if len(seen_cls) <= 3 else ast
         d = refsem_compare([(0, small)], exe_play, depth_b, budget_b, name="c01shr")[0][1]
         ref_fail.append(dict(kind="refsem", cls=cls, ink=gen_ink.print_program(small), ast=small, difference=d))
 
@@ -546,7 +555,7 @@ def run(ctx):
                       dict(theorem_file="theories/Props/C01.v", error=pr_main["failed"]), no_input=True)
     if bad_a and not fails_c and not ref_fail:
         ctx.violation("engine model/implementation correspondence broken: " + json.dumps(bad_a[0].get("first_diff"))[:300],
-                      dict(mismatches=bad_a), no_input=True)
+                      dict(mismatches=report_a(time.time() + (240 if quick else 1200))), no_input=True)
 
 
 # weights of the RefSem stream: constructs with a known compiler defect are switched off here and
